@@ -102,6 +102,10 @@ def gen(rng, i, tier):
         if rng.random() < 0.4:                           # small operands of either sign: measures, halves, thirds
             b = [rng.choice([-8, -4, -3, -2, -1, 1, 2, 3, 4, 8]), 1 if bk == "int" else rng.choice([1, 2, 3, 4])]
             a = [rng.randrange(-400, 400), rng.choice([1, 2, 3, 4, 48])]
+        elif rng.random() < 0.3:                         # one operand on the tick grid, the other one off it
+            a = [rng.randrange(-400, 400), rng.choice([1, 2, 3, 4, 48])]
+            if bk != "int" and rng.random() < 0.3:
+                a, b = [b[0], b[1]], a
         return {"k": "ops", "op": op, "a": a, "b": b, "bk": bk}
     if k == "str":
         t = rng.choice([rng.randrange(-96000, 96000), rng.randrange(-480000000, 480000000)])
